@@ -3,7 +3,7 @@
 import glob, json, os, re
 HERE = os.path.dirname(os.path.dirname(os.path.abspath(__file__)))
 rows = []
-for d in sorted(glob.glob(os.path.join(HERE, "seeded", "*"))):
+for d in sorted(x for x in glob.glob(os.path.join(HERE, "seeded", "*")) if os.path.isdir(x)):
     m = json.load(open(os.path.join(d, "meta.json")))
     det, missed = [], []
     for k, v in (m.get("checks") or {}).items():
